@@ -57,6 +57,7 @@ type Case struct {
 	Shape int
 	Cast  string
 	Lines [][]exact.Pt // line strings in 1/1000 units
+	Rot   bool         // both operands rotated by 30 degrees and scaled by 1.7 (a similarity: lengths scale by 1.7)
 }
 
 func region(s shp) exact.Region {
@@ -112,6 +113,32 @@ func casts(s shp) []string {
 }
 
 func f(p exact.Pt) geom.Point { return geom.Point{X: float64(p.X) / scale, Y: float64(p.Y) / scale} }
+
+const simScale = 1.7
+
+func rot(p geom.Point) geom.Point {
+	c, s := 0.8660254037844387*simScale, 0.5*simScale
+	return geom.Point{X: c*p.X - s*p.Y + 0.123, Y: s*p.X + c*p.Y - 4.56}
+}
+
+func rotGeom(pg geom.Polygonal) geom.Polygonal {
+	var mp geom.MultiPolygon
+	for _, p := range pg.Polygons() {
+		var q geom.Polygon
+		for _, r := range p {
+			var o geom.Path
+			for _, v := range r {
+				o = append(o, rot(v))
+			}
+			q = append(q, o)
+		}
+		mp = append(mp, q)
+	}
+	if _, ok := pg.(geom.Polygon); ok {
+		return mp[0]
+	}
+	return mp
+}
 
 // generalPosition: no line vertex on the polygon boundary, no polygon vertex
 // on the line, hence no collinear overlap.
@@ -199,7 +226,7 @@ func insideLength(r exact.Region, fr exact.FRegion, line []exact.Pt) (float64, b
 	return total, true
 }
 
-func distToLine(p geom.Point, lines [][]exact.Pt) float64 {
+func distToLine(p geom.Point, lines [][]exact.Pt, f func(exact.Pt) geom.Point) float64 {
 	d := math.Inf(1)
 	for _, l := range lines {
 		for k := 0; k+1 < len(l); k++ {
@@ -291,13 +318,27 @@ func runCase(c Case) (string, string) {
 		want += w
 	}
 	pg := cast(s, c.Cast)
+	pt := f
+	if c.Rot {
+		pg = rotGeom(pg)
+		pt = func(p exact.Pt) geom.Point { return rot(f(p)) }
+		want *= simScale
+		ffr := make(exact.FRegion, len(fr))
+		for i, ring := range fr {
+			for _, v := range ring {
+				q := rot(geom.Point{X: v.X, Y: v.Y})
+				ffr[i] = append(ffr[i], exact.FPt{X: q.X, Y: q.Y})
+			}
+		}
+		fr = ffr
+	}
 	snapshot := fmt.Sprint(pg)
 	var recv geom.Linear
 	var fullLen float64
 	if len(c.Lines) == 1 {
 		ls := geom.LineString{}
 		for _, p := range c.Lines[0] {
-			ls = append(ls, f(p))
+			ls = append(ls, pt(p))
 		}
 		recv = ls
 		fullLen = ls.Length()
@@ -306,7 +347,7 @@ func runCase(c Case) (string, string) {
 		for _, l := range c.Lines {
 			ls := geom.LineString{}
 			for _, p := range l {
-				ls = append(ls, f(p))
+				ls = append(ls, pt(p))
 			}
 			ml = append(ml, ls)
 		}
@@ -338,10 +379,10 @@ func runCase(c Case) (string, string) {
 	}
 	for _, l := range out {
 		for _, v := range l {
-			if distToLine(v, c.Lines) > 1e-9 {
+			if distToLine(v, c.Lines, pt) > 1e-9*simScale {
 				return "vertex-off-line", fmt.Sprintf("%v in %v", v, out)
 			}
-			if !exact.InsideF(fr, exact.FPt{X: v.X, Y: v.Y}) && distToBoundary(v, fr) > 1e-9 {
+			if !exact.InsideF(fr, exact.FPt{X: v.X, Y: v.Y}) && distToBoundary(v, fr) > 1e-9*simScale {
 				return "vertex-outside-polygon", fmt.Sprintf("%v in %v", v, out)
 			}
 		}
@@ -369,7 +410,7 @@ func main() {
 		return
 	}
 	rep = report.New("C14", tier, "model_checking")
-	rep.Rule = "E1: 15 polygonal shapes (boxes, triangles, L, C, pentagon, holes in both windings and closed spelling, multi-polygons, island in hole) as Polygon / MultiPolygon / *Bounds x every simple open polyline of 2 and 3 vertices over the lattice (i+.37, j+.41), i,j in {-1,1,3,5,7} (thorough: -1..7), plus two-member multi-line strings; pairs not in general position (exact test) or with a piece shorter than 1e-7 are skipped and counted. Oracle: reference inside length from exact crossing tests + even-odd classification of every piece; Length(result) equal (rel 1e-9); every result vertex within 1e-9 of the line and inside or on the polygon; empty iff the reference length is 0; the polygon argument is not modified. Non-trivial = lines partly inside."
+	rep.Rule = "E1: 15 polygonal shapes (boxes, triangles, L, C, pentagon, holes in both windings and closed spelling, multi-polygons, island in hole) as Polygon / MultiPolygon / *Bounds x every simple open polyline of 2 and 3 vertices over the lattice (i+.37, j+.41), i,j in {-1,1,3,5,7} (thorough: -1..7), plus two-member multi-line strings; the same pairs again with both operands rotated by 30 degrees and scaled by 1.7 (irrational coordinates, lengths scale by 1.7); pairs not in general position (exact test) or with a piece shorter than 1e-7 are skipped and counted. Oracle: reference inside length from exact crossing tests + even-odd classification of every piece; Length(result) equal (rel 1e-9); every result vertex within 1e-9 of the line and inside or on the polygon; empty iff the reference length is 0; the polygon argument is not modified. Non-trivial = lines partly inside."
 	var lattice []exact.Pt
 	step := int64(2)
 	if tier == "thorough" {
@@ -410,6 +451,13 @@ func main() {
 				c := Case{Shape: si, Cast: ct, Lines: [][]exact.Pt{lines[i]}}
 				if sym, det := runCase(c); sym != "" {
 					rep.Violation(fmt.Sprintf("LineString.Clip|%s|%s|%s", ct, s.Name, sym), map[string]interface{}{"case": c, "observed": det})
+				}
+				if ct != "Bounds" && (tier == "thorough" || i%3 == 0) {
+					cr := c
+					cr.Rot = true
+					if sym, det := runCase(cr); sym != "" {
+						rep.Violation(fmt.Sprintf("LineString.Clip|%s|%s|rotated|%s", ct, s.Name, sym), map[string]interface{}{"case": cr, "observed": det})
+					}
 				}
 				// the same polygon value clipped twice in a row (argument reuse)
 				if i < n2 && i%5 == 0 {
